@@ -100,3 +100,50 @@ def rebound_parameter_in_loop(repo, modname, qual, param):
                             out.append((modname, qual, a, "parameter `%s` is rebound inside the loop: the following iterations "
                                         "(siblings) see the new value" % param))
     return out
+
+
+def degenerate_dict_key(repo, modules):
+    """`d[E]` / `E in d` where a dominating test pins E to a constant (`if E == "template":`): every entry
+    shares one key, so a cache keyed that way returns the first value for everything."""
+    out, n = [], 0
+    for mn in modules:
+        m = repo.module(mn)
+        for q, fn in m.functions().items():
+            for node in ast.walk(fn):
+                key = None
+                if isinstance(node, ast.Subscript) and not isinstance(node.slice, (ast.Constant, ast.Slice)):
+                    key = node.slice
+                elif isinstance(node, ast.Compare) and len(node.ops) == 1 and isinstance(node.ops[0], (ast.In, ast.NotIn)) \
+                        and not isinstance(node.left, ast.Constant):
+                    key = node.left
+                if key is None or isinstance(key, ast.Name):
+                    continue
+                n += 1
+                kt = ast.unparse(key)
+                for t, pol in pyflow.dominating_tests(node, stop=fn):
+                    if pol and isinstance(t, ast.Compare) and len(t.ops) == 1 and isinstance(t.ops[0], ast.Eq) \
+                            and ast.unparse(t.left) == kt and isinstance(t.comparators[0], ast.Constant):
+                        out.append((mn, q, node, "the key `%s` is known to equal %r here (guard `%s`): all entries collapse onto "
+                                    "one key" % (kt, t.comparators[0].value, ast.unparse(t))))
+                        break
+    return out, n
+
+
+def aliased_then_mutated(repo, modname, qual):
+    """`a = x.attr` (no copy) followed by a store through `a` (a.f = .. / a.d[k] = ..): the original is changed."""
+    m = repo.module(modname)
+    fn = m.func(qual)
+    out = []
+    for asg in ast.walk(fn):
+        if isinstance(asg, ast.Assign) and isinstance(asg.targets[0], ast.Name) and isinstance(asg.value, ast.Attribute):
+            a = asg.targets[0].id
+            for st in ast.walk(fn):
+                if isinstance(st, ast.Assign) and st.lineno > asg.lineno:
+                    for t in st.targets:
+                        base = t
+                        while isinstance(base, (ast.Attribute, ast.Subscript)):
+                            base = base.value
+                        if isinstance(t, (ast.Attribute, ast.Subscript)) and isinstance(base, ast.Name) and base.id == a:
+                            out.append((modname, qual, st, "`%s` is bound to `%s` without a copy and then written through (`%s`): the "
+                                        "object it came from is modified" % (a, ast.unparse(asg.value), ast.unparse(st)[:50])))
+    return out
